@@ -237,9 +237,11 @@ LEVEL_TEXT = ("Lean 4 theorems about an executable model of the column preparati
               "unchanged at its position; no supplied value is flagged and a cell is flagged exactly when it was missing and is now present; "
               "if any cell of the column was supplied nothing remains missing (ffill then bfill totalise); zeros become missing for "
               "electricity; the first duplicate wins; the index has no gaps. The model's keep/fill/flag pattern, dedupe, zero rule and "
-              "reindex are tied to the real data classes by a differential run.")
+              "reindex are tied to the real data classes by a differential run, and by a translator table: the preparation plan (order of the "
+              "stages of _set_data, the zero rule, keep= of the duplicate removal, the whole-day edges, the fall-back stages and the flag "
+              "statements) is re-extracted from the source on every run (Gen/PrepPlan) and proved to be the plan the model composes.")
 LEVEL_NOTE = ("Trusted: Lean kernel + standard axioms; the values of filled cells are outside the property and the model; the construction of "
               "the first/last instant of the local days (Timestamp.replace) is checked by the oracle only — known finding C06-F4 for days whose "
               "23:00 does not exist.")
-TECHNIQUE = "Lean 4 proof (list inductions for every proposal function) + differential correspondence + cell-by-cell oracle"
+TECHNIQUE = "Lean 4 proof (list inductions for every proposal function) + preparation plan regenerated from the source + differential correspondence + cell-by-cell oracle"
 ASSUMPTIONS = ["inputs are on the hour", "the autocorrelation stage only writes currently-missing cells (x.loc[nan_series_idx]) — validated by the oracle"]
